@@ -3,6 +3,8 @@ package endpoint
 import (
 	"fmt"
 	"net/http"
+	"sort"
+	"strings"
 )
 
 type Handler struct {
@@ -13,7 +15,20 @@ func (se Handler) ServeHTTP(w http.ResponseWriter, r *http.Request) {
 	method, ok := se.Methods[r.Method]
 
 	if !ok {
-		panic(fmt.Errorf("endpoint '%s' has not implemented HTTP method: '%s'", r.URL.Path, r.Method))
+		// Answer the client instead of panicking: the panic left the handler,
+		// so the server dropped the connection without a response.
+		allowed := make([]string, 0, len(se.Methods))
+		for m := range se.Methods {
+			allowed = append(allowed, m)
+		}
+		sort.Strings(allowed)
+		w.Header().Set("Allow", strings.Join(allowed, ", "))
+		writeJSONErrorWithStatus(
+			w,
+			http.StatusMethodNotAllowed,
+			fmt.Errorf("endpoint '%s' has not implemented HTTP method: '%s'", r.URL.Path, r.Method),
+		)
+		return
 	}
 
 	w.Header().Set("Content-Type", string(method.ContentType()))
